@@ -509,3 +509,41 @@ class SoftAll(SoftErrors):
             self._rep.info.append('%s %s: the shape-based reading reports "%s" -- not confirmed by %s' % (rule, site, msg[:200], self._what))
         else:
             self._rep.fail(rule, site, construct, msg, detail, where)
+
+
+_RE_FLAG_NAMES = {'A', 'ASCII', 'I', 'IGNORECASE', 'L', 'LOCALE', 'M', 'MULTILINE', 'S', 'DOTALL', 'U', 'UNICODE', 'X', 'VERBOSE', 'DEBUG', 'NOFLAG'}
+
+
+def check_re_positional_flags(rep, src, rule, modname, why, minimum=0):
+    """re.split(pattern, string, maxsplit=0, flags=0), re.sub(pattern, repl, string, count=0, flags=0), re.subn likewise, and the methods
+    of a compiled pattern split(string, maxsplit) / sub(repl, string, count): a regex FLAG passed at the position of maxsplit / count is
+    taken as a number (re.ASCII is 256, re.IGNORECASE is 2) -- the text is cut or rewritten only that many times and the flag is not
+    applied.  Every such call of the module is examined; a flag belongs in `flags=` or in re.compile."""
+    from ..core import norm
+    mod = src.mod(modname)
+    n = 0
+    for q, f in sorted(mod.funcs.items()):
+        for c in ast.walk(f.node):
+            if not (isinstance(c, ast.Call) and isinstance(c.func, ast.Attribute) and c.func.attr in ('split', 'sub', 'subn')):
+                continue
+            is_module_call = norm(c.func.value) == 're'
+            pos = {('split', True): 2, ('sub', True): 3, ('subn', True): 3, ('split', False): 1, ('sub', False): 2, ('subn', False): 2}[(c.func.attr, is_module_call)]
+            if len(c.args) <= pos:
+                continue
+            a_ = c.args[pos]
+            flags_ = [x_ for x_ in ast.walk(a_) if isinstance(x_, ast.Attribute) and norm(x_.value) == 're' and x_.attr in _RE_FLAG_NAMES]
+            if not is_module_call and not flags_:
+                continue          # (str.split(sep, maxsplit) and the like)
+            n += 1
+            what = '%s: no regex flag at the position of %s' % (norm(c.func), 'maxsplit' if c.func.attr == 'split' else 'count')
+            if flags_:
+                rep.fail(rule, f.site, what, '`%s` passes %s where %s expects %s: the flag is read as a number (re.ASCII = 256, re.IGNORECASE = 2, re.VERBOSE = 64), so the text is '
+                         '%s at most that many times and the flag itself is not applied; %s' % (
+                             norm(c)[:90], norm(a_), norm(c.func), 'maxsplit' if c.func.attr == 'split' else 'count', 'cut' if c.func.attr == 'split' else 'rewritten', why),
+                         where='%s:%d' % (mod.relpath, c.lineno))
+            else:
+                rep.ok(rule, f.site, what, norm(a_)[:40], nontrivial=False)
+    if n < minimum:
+        from ..core import AnalysisError
+        raise AnalysisError('%s: only %d re.split / re.sub calls with a third argument' % (modname, n))
+    return n
